@@ -1420,7 +1420,12 @@ class Kconfig(object):
                         continue
 
                     # We encountered a deprecated option: map old name to new symbol
-                    if (not sym or not sym.nodes) and not in_deprecated_block and self._deprecated_options:
+                    # (a synthetic symbol that a requested deprecated block created earlier in the file is still an old name)
+                    if (
+                        (not sym or not sym.nodes or sym._is_deprecated)
+                        and not in_deprecated_block
+                        and self._deprecated_options
+                    ):
                         new_name = self._deprecated_options.get_new_option(name)
                         if new_name:
                             new_sym = get_sym(new_name)
@@ -1522,7 +1527,11 @@ class Kconfig(object):
 
                     # We have encountered a deprecated option: resolve it for "is not set" lines
                     _deprecated_unset_val = None
-                    if (not sym or not sym.nodes) and not in_deprecated_block and self._deprecated_options:
+                    if (
+                        (not sym or not sym.nodes or sym._is_deprecated)
+                        and not in_deprecated_block
+                        and self._deprecated_options
+                    ):
                         new_name = self._deprecated_options.get_new_option(name)
                         if new_name:
                             new_sym = get_sym(new_name)
